@@ -61,4 +61,12 @@ theorem insertionSortRev_perm (acc l : List Nat) : (insertionSortRev acc l).Perm
     simp only [insertionSortRev, List.reverse_cons, List.append_assoc, List.singleton_append]
     exact (ih (bubble x acc)).trans (List.Perm.append_left _ (bubble_perm x acc))
 
+/-! resumption: the two ways a connection ends -/
+theorem failedWith_res (p c : Option Sess) : (failedWith p c).res = .fail ∧ (failedWith p c).resumed = false := by
+  unfold failedWith; split <;> simp
+
+theorem completed_res (o : Outcome) (r i : Bool) (tk : Option (List Nat)) (c : Option Sess) :
+    (completed o r i tk c).res = .done o ∧ (completed o r i tk c).resumed = r := by
+  unfold completed; split <;> simp
+
 end ZV.C24
